@@ -86,6 +86,15 @@ def instantiate_axioms(exprs, packs):
             ax.append(z3.And(a > -PI / 2, a < PI / 2))
         for a in by.get("atan2", []):
             ax.append(z3.And(a > -PI, a <= PI))
+    if "cos-sign" in packs:
+        for a in by.get("cos", []):
+            x = a.arg(0)
+            ax.append(z3.Implies(z3.And(x >= -PI / 2, x <= PI / 2), a >= 0))
+            ax.append(z3.Implies(z3.And(x > -PI / 2, x < PI / 2), a > 0))
+        for a in by.get("sin", []):
+            x = a.arg(0)
+            ax.append(z3.Implies(z3.And(x >= 0, x <= PI), a >= 0))
+            ax.append(z3.Implies(z3.And(x >= -PI, x <= 0), a <= 0))
     if "sin-lipschitz" in packs:
         sins = list({a.get_id(): a for a in by.get("sin", [])}.values())
         for i_ in range(len(sins)):
@@ -281,7 +290,7 @@ def run_case(args):
         if tier == "thorough":
             timeout_ms = max(timeout_ms, 120000)
         from . import stdlib
-        ex = Explorer(Repo(), stdlib_models=stdlib.MODELS,
+        ex = Explorer(Repo(), stdlib_models=stdlib.MODELS, branch_timeout_ms=opts.get("branch_timeout_ms", 2000),
                       contracts=_resolve(opts.get("contracts")), cuts=_resolve(opts.get("cuts")),
                       invariants=_resolve(opts.get("invariants")), uf_cuts=_resolve(opts.get("uf_cuts")),
                       math_mode=opts.get("math_mode", "symbolic"),
@@ -310,7 +319,7 @@ def run_case(args):
             if vcs and axioms_packs:
                 hy = vcs[-1][1]
                 sg = z3.Solver()
-                sg.set("timeout", 5000)
+                sg.set("timeout", 1200)
                 for x in hy:
                     sg.add(x)
                 for a in instantiate_axioms(list(hy), axioms_packs):
